@@ -19,6 +19,7 @@ import (
 	"path/filepath"
 	"strconv"
 	"strings"
+	"sync"
 	"testing"
 	"time"
 )
@@ -363,6 +364,14 @@ func TestVerifC01(t *testing.T) {
 		scribbleN := 256
 		if overlap {
 			pool = ksInstallPool(env.quiet, 2+rv.Intn(2))
+			// also at every filesystem step inside the volume work (when unix_volume.go is the
+			// instrumented copy): whatever is in the pool then may be overwritten by somebody else
+			var smu sync.Mutex
+			verifSetHook(func(string) {
+				smu.Lock()
+				pool.scribble(scribbleN)
+				smu.Unlock()
+			})
 			for _, b := range blocks {
 				if len(b.data)+200 > scribbleN {
 					scribbleN = len(b.data) + 200
@@ -532,6 +541,8 @@ func TestVerifC01(t *testing.T) {
 					tags = append(tags, fmt.Sprintf("pool-buffers-overwritten=%d", pool.scribble(scribbleN)))
 				}
 				ksOneP(func() { code = perform(r, kind, b, bidx, nested) })
+			} else if overlap {
+				ksOneP(func() { code = perform(r, kind, b, bidx, nil) })
 			} else {
 				code = perform(r, kind, b, bidx, nil)
 			}
@@ -576,6 +587,7 @@ func TestVerifC01(t *testing.T) {
 			tags = append(tags, "64MiB-block")
 		}
 		cs.Add(i, term, desc, interesting, tags...)
+		verifSetHook(nil)
 		env.cleanup()
 		if el := time.Since(caseStart); el > 300*time.Millisecond && os.Getenv("VERIF_TIMING") != "" {
 			fmt.Printf("case %d took %v (env %v) big=%v ops=%v\n", i, el, dEnv, bigMode, descs)
